@@ -1450,7 +1450,7 @@ class Server:
     @ConnectionConditions(ConnectionConditions.login_required)
     async def pasv(self, connection, rest):
         async def handler(reader, writer):
-            if connection.future.data_connection.done():
+            if connection.future.data_connection.done() or connection.command_connection.writer.is_closing():
                 writer.close()
             else:
                 connection.data_connection = ThrottleStreamIO(
@@ -1495,7 +1495,7 @@ class Server:
     @ConnectionConditions(ConnectionConditions.login_required)
     async def epsv(self, connection, rest):
         async def handler(reader, writer):
-            if connection.future.data_connection.done():
+            if connection.future.data_connection.done() or connection.command_connection.writer.is_closing():
                 writer.close()
             else:
                 connection.data_connection = ThrottleStreamIO(
